@@ -87,6 +87,30 @@ func selectRegion(fset *token.FileSet, fd *ast.FuncDecl, sel string) ([]ast.Stmt
 			cur = found
 			continue
 		}
+		if strings.HasPrefix(kind, "switch#") {
+			// N-th switch statement (in source order, nested ones included) with that tag
+			n := 0
+			fmt.Sscanf(kind[7:], "%d", &n)
+			k := 0
+			ast.Inspect(cur, func(nd ast.Node) bool {
+				if found != nil {
+					return false
+				}
+				if sw, ok := nd.(*ast.SwitchStmt); ok && sw.Tag != nil && nodeText(fset, sw.Tag) == arg {
+					k++
+					if k == n {
+						found = sw
+						return false
+					}
+				}
+				return true
+			})
+			if found == nil {
+				return nil, fmt.Errorf("selector element %q not found", part)
+			}
+			cur = found
+			continue
+		}
 		switch kind {
 		case "switch":
 			ast.Inspect(cur, func(n ast.Node) bool {
